@@ -33,7 +33,9 @@ ASSUMPTIONS = [
 ]
 
 EXOTIC = ['\r', '\x0b', '\x0c', '\x1c', '\x1d', '\x1e', '\x85', ' ', ' ']
-TEXT_ALPHA = ['a', 'b', 'c', ' ', '\n', '\n', '\r\n', '\xe9', '日', '\U0001f600', 'x', 'y']
+TEXT_ALPHA = ['a', 'b', 'c', ' ', '\n', '\n', '\r\n', '\xe9', '日', '\U0001f600', 'x', 'y',
+              # code points whose UTF-8 form has bytes at the edges of the lead / continuation ranges
+              '\x80', '\xbf', '\xff', '\u07ff', '\u0800', '\ufffd', '\uffff', '\U0001f63f', '\U0010ffff']
 BYTE_ALPHA = [b'a', b'b', b'\n', b'\n', b'\r', b'\r\n', b'\x00', b'\xff', b'\xc3\xa9', b' ', b'z']
 
 
@@ -231,9 +233,12 @@ class SpoolCheck(object):
         kind = 'sstring' if h['kind'] == 'text' else 'sbytes'
         op = f.op[0] if f.op else '?'
         content = getattr(f, 'content', '')
+        # the known finding: readline()/iteration end lines at every Unicode line break, readlines() at '\r' as well
+        # as '\n' (bytes.splitlines); a readlines() that splits text WITHOUT a '\r' differently is something else
         if kind == 'sstring' and any(ch in content for ch in EXOTIC) and \
-                any(o[0] in ('readline', 'readlines', 'next', 'next-kept') for o in h['ops']):
-            cr_only = not any(ch in content for ch in EXOTIC[1:])
+                any(o[0] in ('readline', 'next', 'next-kept') for o in h['ops']):
+            return 'sstring:line-reads:universal-newlines'
+        if kind == 'sstring' and '\r' in content and any(o[0] == 'readlines' for o in h['ops']):
             return 'sstring:line-reads:universal-newlines'
         prior = sorted(set(o[0] for o in h['ops'][:max(f.step, 0)] if o[0] not in ('write',)))
         return '%s:%s:%s%s' % (kind, f.cls().split('-')[0], op, (':after:' + '+'.join(prior)) if prior else '')
@@ -273,6 +278,8 @@ class MfrCheck(object):
             else:
                 parts.append(b''.join(r.choice(BYTE_ALPHA) for _ in range(ln)).decode('latin-1'))
         kinds = [r.choice(['mem', 'mem', 'file']) for _ in range(n)]
+        if r.random() < 0.15:
+            kinds = [r.choice([k, 'spooled'] + ([] if text else ['nested'])) for k in kinds]
         ops = []
         if r.random() < 0.25:
             # members that were just written (cursor at their end, or somewhere inside): the reader is rewound first
@@ -294,6 +301,16 @@ class MfrCheck(object):
                 data = part if h['text'] else part.encode('latin-1')
                 if kind == 'mem':
                     members.append(io.StringIO(data) if h['text'] else io.BytesIO(data))
+                elif kind == 'nested':
+                    # a member that is itself a reader over two pieces
+                    cut = len(data) // 2
+                    members.append(iou.MultiFileReader(io.BytesIO(data[:cut]), io.BytesIO(data[cut:])))
+                elif kind == 'spooled':
+                    m = iou.SpooledStringIO(max_size=4) if h['text'] else iou.SpooledBytesIO(max_size=4)
+                    m.write(data)
+                    m.seek(0)
+                    opened.append(m)
+                    members.append(m)
                 elif kind in ('mem-written', 'mem-moved'):
                     m = io.StringIO() if h['text'] else io.BytesIO()
                     m.write(data)
@@ -329,7 +346,7 @@ class MfrCheck(object):
             whole = ''.join(h['parts']) if h['text'] else b''.join(p.encode('latin-1') for p in h['parts'])
             pos = 0
             ops = list(h['ops'])
-            if any(k not in ('mem', 'file') for k in h['members']) and ops[:1] != [['seek0']]:
+            if any(k not in ('mem', 'file', 'nested', 'spooled') for k in h['members']) and ops[:1] != [['seek0']]:
                 ops.insert(0, ['seek0'])       # members not at their start: the statement speaks of reading after seek(0)
             for i, op in enumerate(ops):
                 if op[0] == 'read' and len(op) > 1:
